@@ -313,7 +313,7 @@ def k1(env: Env, out: Outcome, workdir: str) -> None:
                     "boot|r1", "load", "has", "addop|r1|5|x", "addop|r1|9|y", "addop|r2|9|z", "purge|5", "boot|r2", "purge|0", "dump",
                     "boot|r3", "has", "purge|0", "record|a:0", "record|a:0", "boot|r3", "load", "truncate|r3|1", "rawload|r3", "dump"])
     streams.append(["new", "boot|r1"] + MALFORMED + ["dump"])
-    for _ in range(env.budget(10, 150)):
+    for _ in range(env.budget(15, 150)):
         streams.append(gen_k1_stream(env.rng, env.rng.randint(10, 60)))
     drv = Driver(MODEL)
     flat = [l for s in streams for l in s]
@@ -808,7 +808,7 @@ def run(env: Env) -> Outcome:
         k2(env, out, workdir)
         # ---- corpus: hand-picked workflows, every journal length; then the two known-finding witnesses
         for c in CORPUS_INLINE:
-            run_case(c["spec"], c["seed"], out, env, other_p=0.5, max_recover=env.budget(10, 60), name="corpus:" + c["name"],
+            run_case(c["spec"], c["seed"], out, env, other_p=0.5, max_recover=env.budget(12, 60), name="corpus:" + c["name"],
                      second_level=1 if env.tier != "quick" else 0)
         for fn in CORPUS_FILES:
             path = os.path.join(VERIF, "harness", "corpus", fn)
@@ -824,7 +824,7 @@ def run(env: Env) -> Outcome:
             spec = specgen.gen_det_spec(env.rng)
             out.count("spec:det")
             run_case(spec, env.rng.randrange(1 << 30), out, env, other_p=0.15 if env.tier == "quick" else 0.4,
-                     max_recover=env.budget(7, 45), name=f"det{i}", second_level=0 if env.tier == "quick" else 1)
+                     max_recover=env.budget(9, 45), name=f"det{i}", second_level=0 if env.tier == "quick" else 1)
         # ---- generated: general timer-free workflows (failures, handlers, collects): replayed part only
         for i in range(env.budget(1, 12)):
             spec = specgen.gen_spec(env.rng, family="general", allow_wait=False, allow_retry=False, allow_external=False,
